@@ -86,7 +86,7 @@ def gen_sources(outdir, Ls):
     for L in Ls:
         for c in (0, 1): d.append(f"    case {L*2+c}: return KernelCfg<{L},{'true' if c else 'false'}>::lu(t, kind, n, blocks);")
     d.append('    default: return "no-cfg"; } }')
-    d.append('  if (cmd == "solve") { auto integ = t.nat(); auto L = t.nat(); auto csc = t.nat(); auto kind = t.nat(); switch ((L * 2 + csc) * 4 + kind) {')
+    d.append('  if (cmd == "solve" || cmd == "bsolve") { auto integ = t.nat() + (cmd == "bsolve" ? 10 : 0); auto L = t.nat(); auto csc = t.nat(); auto kind = t.nat(); switch ((L * 2 + csc) * 4 + kind) {')
     for L in Ls:
         for c in (0, 1):
             for k in range(4):
